@@ -30,6 +30,9 @@ int CryptReleaseContext(uintptr_t prov, unsigned long flags) { (void)prov; (void
 /* Zephyr */
 int sys_csrand_get(void *dst, size_t len) { unsigned k = slot; if (slot_fails(k)) { slot++; hit_failure = 1; memset(dst, (int)junk, len); return -5; } fill(dst, len); slot++; return 0; }
 int bt_rand(void *buf, size_t len) { return sys_csrand_get(buf, len); }
+/* the non-cryptographic generator next to it: never a substitute for the source the driver is documented to use, and it cannot fail */
+void sys_rand_get(void *dst, size_t len) { memset(dst, 0x5C, len); }
+uint32_t sys_rand32_get(void) { return 0x5C5C5C5Cu; }
 
 typedef struct { int st[3]; uint8_t out[2][24]; int failed[3]; unsigned slots; } result;
 static void scenario(int sc, uint64_t mask, int flip, int afail, result *r)
